@@ -141,3 +141,31 @@ fn c02_guard_bool_reduction_wrong_fails() {
     let v = Vec2::<i32>::new(kani::any(), kani::any());
     assert!(v.reduce_and() == ((v.x & v.y) != 0));
 }
+
+/// from an iterator: the items up to the first `None`, in order, the remaining lanes at their default; the iterator is not pulled
+/// again after it has returned `None` (a non-fused iterator would otherwise contribute later items)
+struct Unfused { n: u8, pulls_after_none: u8, seen_none: bool }
+impl Iterator for Unfused {
+    type Item = u8;
+    fn next(&mut self) -> Option<u8> {
+        if self.seen_none { self.pulls_after_none += 1; return Some(94); }
+        if self.n == 0 { self.seen_none = true; return None; }
+        self.n -= 1;
+        Some(10 + self.n)
+    }
+}
+#[kani::proof]
+#[kani::unwind(6)]
+fn c02_from_iter_stops_at_none() {
+    let n: u8 = kani::any();
+    kani::assume(n <= 5);
+    let mut it = Unfused { n, pulls_after_none: 0, seen_none: false };
+    let v: Vec4<u8> = (&mut it).collect();
+    let arr = v.into_array();
+    let mut i = 0;
+    while i < 4 { assert!(arr[i] == if (i as u8) < n { 10 + n - 1 - i as u8 } else { 0 }); i += 1; }
+    assert!(it.pulls_after_none == 0);
+    let mut it3 = Unfused { n, pulls_after_none: 0, seen_none: false };
+    let e: Extent3<u8> = (&mut it3).collect();
+    assert!(e.w == if n > 0 { 10 + n - 1 } else { 0 } && (n >= 3 || e.d == 0));
+}
